@@ -614,6 +614,7 @@ func NewHaqq(
 	)
 
 	chainID := bApp.ChainID()
+	evmKeeper.WithChainIDString(chainID)
 	// We call this after setting the hooks to ensure that the hooks are set on the keeper
 	evmKeeper.WithPrecompiles(
 		evmkeeper.AvailablePrecompiles(
